@@ -183,5 +183,103 @@ theorem strip_renderDefault (cfg : RCfg) (d : LogDay) (db : Book) (hdate : noEsc
       strip_noEsc_append _ _ (noEsc_lit [32] (by decide)), strip_fmtVal, strip_noEsc_append _ _ (noEsc_lit [32] (by decide)),
       strip_fmtVal, strip_noEsc_append _ _ (noEsc_lit [32, 61] (by decide)), strip_fmtVal]
 
+theorem strip_nil : strip .normal [] = [] := by decide
+
+/-- the old register reporter -/
+theorem strip_renderOld (cfg : RCfg) (d : LogDay) (db : Book) (hdate : noEsc (Date.format cfg.dateLayout d.date))
+    (hn : NamesPlain db d) :
+    stripAnsi (renderOld { cfg with color := true } d db) = renderOld { cfg with color := false } d db := by
+  obtain ⟨hfood, hing, htot⟩ := hn
+  unfold stripAnsi renderOld
+  simp only [List.append_assoc]
+  rw [strip_noEsc_append _ _ hdate, strip_noEsc_append _ _ (noEsc_lit [10] (by decide))]
+  congr 2
+  rw [strip_rows (fun e => if cfg.totalsOnly = true then [] else
+        [9] ++ (padRight 32 27 e.name ++ ([32, 58] ++ (fmtVal true e.value ++ ([10]
+        ++ ((contributions db e).map (fun ing => [9, 9] ++ (padLeft 32 20 ing.name ++ ([32] ++ (fmtVal true ing.value ++ [10]))))).flatten)))))
+      (fun e => if cfg.totalsOnly = true then [] else
+        [9] ++ (padRight 32 27 e.name ++ ([32, 58] ++ (fmtVal false e.value ++ ([10]
+        ++ ((contributions db e).map (fun ing => [9, 9] ++ (padLeft 32 20 ing.name ++ ([32] ++ (fmtVal false ing.value ++ [10]))))).flatten)))))]
+  · congr 1
+    cases hT : (cfg.totals && !(d.elements.foldl (fun a e => accumulate a (contributions db e)) []).isEmpty) with
+    | false => simp [strip_nil]
+    | true =>
+      simp only [if_true, List.append_assoc]
+      rw [strip_noEsc_append _ _ (noEsc_lit [9] (by decide)),
+        strip_noEsc_append _ _ (noEsc_lit (ofString "-- TOTAL  ") (by decide +kernel)), strip_noEsc_append _ _ (noEsc_dashes 52),
+        strip_noEsc_append _ _ (noEsc_lit [10] (by decide))]
+      congr 4
+      have := strip_rows
+        (fun a : Acc => [9, 9] ++ (padLeft 32 20 a.name ++ ([32] ++ (fmtVal true a.pos ++ ([32] ++ (fmtVal true a.neg ++ ([32, 61] ++ (fmtVal true (a.pos + a.neg) ++ [10]))))))))
+        (fun a : Acc => [9, 9] ++ (padLeft 32 20 a.name ++ ([32] ++ (fmtVal false a.pos ++ ([32] ++ (fmtVal false a.neg ++ ([32, 61] ++ (fmtVal false (a.pos + a.neg) ++ [10]))))))))
+        (d.elements.foldl (fun a e => accumulate a (contributions db e)) []).sorted [] ?_
+      · simpa [strip_nil] using this
+      · intro a ha r
+        have hname : noEsc a.name := by
+          apply htot ⟨a.name, a.pos, a.neg, a.pos + a.neg⟩
+          unfold totalsOf
+          exact List.mem_map.mpr ⟨a, ha, rfl⟩
+        simp only [List.append_assoc]
+        rw [strip_noEsc_append _ _ (noEsc_lit [9, 9] (by decide)), strip_noEsc_append _ _ (noEsc_padLeft 20 _ hname),
+          strip_noEsc_append _ _ (noEsc_lit [32] (by decide)), strip_fmtVal, strip_noEsc_append _ _ (noEsc_lit [32] (by decide)),
+          strip_fmtVal, strip_noEsc_append _ _ (noEsc_lit [32, 61] (by decide)), strip_fmtVal,
+          strip_noEsc_append _ _ (noEsc_lit [10] (by decide))]
+  · intro e he r
+    cases cfg.totalsOnly with
+    | true => simp
+    | false =>
+      simp only [Bool.false_eq_true, if_false, List.append_assoc]
+      rw [strip_noEsc_append _ _ (noEsc_lit [9] (by decide)), strip_noEsc_append _ _ (noEsc_padRight 27 _ (hfood e he)),
+        strip_noEsc_append _ _ (noEsc_lit [32, 58] (by decide)), strip_fmtVal, strip_noEsc_append _ _ (noEsc_lit [10] (by decide))]
+      congr 5
+      apply strip_rows
+      intro ing hing' r'
+      simp only [List.append_assoc]
+      rw [strip_noEsc_append _ _ (noEsc_lit [9, 9] (by decide)), strip_noEsc_append _ _ (noEsc_padLeft 20 _ (hing e he ing hing')),
+        strip_noEsc_append _ _ (noEsc_lit [32] (by decide)), strip_fmtVal, strip_noEsc_append _ _ (noEsc_lit [10] (by decide))]
+
+/-- `summary` -/
+theorem strip_renderSummary (cfg : RCfg) (d : LogDay) (db : Book) (hdate : noEsc (Date.format cfg.dateLayout d.date))
+    (hn : NamesPlain db d) :
+    stripAnsi (renderSummary { cfg with color := true } d db) = renderSummary { cfg with color := false } d db := by
+  obtain ⟨hfood, _, htot⟩ := hn
+  unfold stripAnsi renderSummary reportItem
+  simp only [List.append_assoc]
+  rw [strip_noEsc_append _ _ hdate, strip_noEsc_append _ _ (noEsc_lit [32, 58] (by decide))]
+  congr 2
+  have h10 : strip .normal [10] = [10] := by decide
+  have hfoods : ∀ (els : List ReportElement), (∀ el ∈ els, noEsc el.name) →
+      strip .normal ([10] ++ (dashes 12 ++ ((els.map (fun el => [10] ++ (fmtVal true el.value ++ ([32, 58, 32] ++ el.name)))).flatten ++ [10])))
+      = [10] ++ (dashes 12 ++ ((els.map (fun el => [10] ++ (fmtVal false el.value ++ ([32, 58, 32] ++ el.name)))).flatten ++ [10])) := by
+    intro els hok
+    rw [strip_noEsc_append _ _ (noEsc_lit [10] (by decide)), strip_noEsc_append _ _ (noEsc_dashes 12)]
+    congr 2
+    rw [strip_rows _ _ _ _ ?_, h10]
+    intro el hel r
+    simp only [List.append_assoc]
+    rw [strip_noEsc_append _ _ (noEsc_lit [10] (by decide)), strip_fmtVal, strip_noEsc_append _ _ (noEsc_lit [32, 58, 32] (by decide)),
+      strip_noEsc_append _ _ (hok el hel)]
+  have hokels : ∀ el ∈ (if cfg.totalsOnly = true then [] else
+      List.map (fun e => ({ name := e.name, value := e.value, ingredients := contributions db e } : ReportElement)) d.elements),
+      noEsc el.name := by
+    intro el hel
+    split at hel
+    · cases hel
+    · obtain ⟨e, he, rfl⟩ := List.mem_map.mp hel
+      exact hfood e he
+  cases cfg.totals with
+  | false =>
+    simp only [Bool.false_eq_true, if_false, List.nil_append]
+    exact hfoods _ hokels
+  | true =>
+    simp only [if_true]
+    rw [strip_rows (fun t : Total => [10] ++ (fmtVal true t.pos ++ ([32, 58, 32] ++ t.name))) (fun t : Total => [10] ++ (fmtVal false t.pos ++ ([32, 58, 32] ++ t.name)))]
+    · congr 1
+      exact hfoods _ hokels
+    · intro t ht r
+      simp only [List.append_assoc]
+      rw [strip_noEsc_append _ _ (noEsc_lit [10] (by decide)), strip_fmtVal, strip_noEsc_append _ _ (noEsc_lit [32, 58, 32] (by decide)),
+        strip_noEsc_append _ _ (htot t ht)]
+
 end Report
 end Hrano
